@@ -16,6 +16,7 @@ import (
 	dht "github.com/libp2p/go-libp2p-kad-dht"
 	"github.com/libp2p/go-libp2p-kad-dht/dual"
 	pb "github.com/libp2p/go-libp2p-kad-dht/pb"
+	recpb "github.com/libp2p/go-libp2p-record/pb"
 	"github.com/libp2p/go-libp2p/core/host"
 	"github.com/libp2p/go-libp2p/core/peerstore"
 	"github.com/libp2p/go-libp2p/core/protocol"
@@ -28,11 +29,12 @@ import (
 )
 
 func init() {
-	sim.Register(&sim.Scenario{Prop: "C04", Name: "value-dual", Weight: 2, Run: func(s *sim.Sim) { c04RunValue(s, "dual") },
+	sim.Register(&sim.Scenario{Prop: "C04", Name: "value-dual", Weight: 2, Run: func(s *sim.Sim) { c04RunValue(s, "dual", false) },
 		Real: []string{"dual.DHT.GetValue/SearchValue (dual/dual.go)", "routing-helpers Parallel.SearchValue merge", "two IpfsDHT instances (WAN/LAN) with dual's query, table and address filters", "ProtocolMessenger.GetValue"},
 		Stub: []string{"host.Host/network (simhost, shared by both instances)", "two pb.MessageSenders (level A; told apart by protocol list)", "remote peers (scripted responders, WAN: public addresses, LAN: private addresses)", "record validator (harness rank validator, time-aware)"},
 		Faults: []string{"fault_rec_invalid", "fault_rec_miskeyed", "fault_rec_empty", "fault_rpc_error", "fault_dial_fail", "fault_cancel", "time_advance",
-			"probe_found", "probe_notfound", "probe_stream_multi", "probe_dual_both_sides_answered", "probe_local_valid", "probe_local_expired", "probe_local_expired_midsearch", "probe_peer_serves_local_bytes_valid", "probe_peer_serves_local_bytes_expired_at_start", "probe_peer_serves_local_bytes_expired_midsearch"},
+			"probe_found", "probe_notfound", "probe_stream_multi", "probe_dual_both_sides_answered", "probe_local_valid", "probe_local_expired", "probe_local_expired_midsearch", "probe_peer_serves_local_bytes_valid", "probe_peer_serves_local_bytes_expired_at_start", "probe_peer_serves_local_bytes_expired_midsearch",
+			"probe_opt_offline", "probe_opt_expired", "probe_opt_offline_local_not_valid", "probe_local_never_valid", "probe_local_outlived_max_age", "probe_stamp_valid_value_held_past_requesters_max_age", "probe_stamp_valid_value_from_the_future", "probe_stamp_valid_value_unparsable"},
 	})
 }
 
@@ -49,7 +51,7 @@ func c04BuildDual(w *c04World) error {
 	s := w.s
 	w.host = simhost.New(s, w.u.Self.ID, w.u.Self.Addrs, w.u.Name)
 	dsWan, dsLan := simds.New(s, "ds-wan"), simds.New(s, "ds-lan")
-	common := append(c04Opts(w.val),
+	common := append(c04Opts(w.val, w.cfg.MaxAge),
 		dht.Mode(dht.ModeClient),
 		dht.BucketSize(w.cfg.K),
 		dht.Concurrency(w.cfg.Alpha),
@@ -79,6 +81,10 @@ func c04BuildDual(w *c04World) error {
 		client: d,
 		pk:     d,
 		stored: func(val []byte) bool { return c04StoredIn(dsWan, val) || c04StoredIn(dsLan, val) },
+		plant: func(key string, old []byte, m func(*recpb.Record)) bool {
+			a, b := c04PlantIn(dsWan, key, old, m), c04PlantIn(dsLan, key, old, m)
+			return a || b
+		},
 		close: func() {
 			_ = d.Close()
 			_ = w.host.Close()
